@@ -2,6 +2,8 @@
 //   radix <w> <signed> <radix_bits> ops...
 //   ops: P,<hexpattern>,<payload> (push)  E (emplace)  F (emplace_keyfirst)  H (get_bucket_key + push_to_bucket)
 //        G (get_bucket + emplace_in_bucket)  T (top)  O (pop)  W (swap_top_bucket)  K (peak_top_key)  C (clear)
+//        A (push(top())), M (emplace with arguments taken from top()), N (push_to_bucket(get_bucket(top()), top())):
+//        the argument aliases the heap's own storage
 //        Y / Z (copy / move construction+assignment round trip; no output token)
 //        X as first token: RadixHeap<Item, ItemKey, KeyType, Radix> built with make_radix_heap instead of RadixHeapPair
 //        (only for "32 0 3" and "16 1 2"); every case also checks BucketComputation::lower_bound/upper_bound
@@ -43,10 +45,13 @@ static std::vector<Op> parse_ops(std::istringstream& in) {
 // a value type that is not a pair, with its own key extractor (RadixHeap proper, built through make_radix_heap)
 template <typename KT>
 struct Item {
-    KT key; uint32_t payload;
-    Item() : key(0), payload(0) {}
-    Item(KT k, uint32_t p) : key(k), payload(p) {}
+    KT key; uint32_t payload; std::string tag;     // heap-owning: a moved-from / destroyed source shows in the tag
+    Item() : key(0), payload(0), tag("p0") {}
+    Item(KT k, uint32_t p) : key(k), payload(p), tag("p" + std::to_string(p)) {}
+    bool intact() const { return tag == "p" + std::to_string(payload); }
 };
+template <typename KT> static bool intact(const Item<KT>& v) { return v.intact(); }
+template <typename KT> static bool intact(const std::pair<KT, uint32_t>&) { return true; }
 template <typename KT>
 struct ItemKey { KT operator()(const Item<KT>& i) const { return i.key; } };
 template <typename KT> static KT key_of(const std::pair<KT, uint32_t>& v) { return v.first; }
@@ -101,9 +106,24 @@ static void run_radix_on(H h, const std::vector<Op>& ops, std::ostringstream& ou
             out << 'i' << idx;
             break;
         }
+        case 'A': case 'M': case 'N': {
+            // the argument ALIASES the heap's own storage (the reference returned by top())
+            if (ref.empty()) { out << "INVALID-HISTORY"; return; }
+            KT m = *ref.begin();
+            size_t idx;
+            if (o.name == 'A') idx = h.push(h.top());                                            // push(const value_type&)
+            else if (o.name == 'M') { const V& t = h.top(); idx = h.emplace(key_of<KT>(t), key_of<KT>(t), pay_of<KT>(t)); }
+            else { const V& t = h.top(); idx = ch.get_bucket(t); h.push_to_bucket(idx, t); }
+            if (idx != ch.get_bucket_key(m)) f = "bucket-index";
+            have_last = true; last = m;
+            ref.insert(m);
+            out << 'i' << idx;
+            break;
+        }
         case 'T': {
             if (ref.empty()) { out << "INVALID-HISTORY"; return; }
             auto v = h.top();
+            if (!intact<KT>(v)) f = "moved-from-value";
             out << 't' << std::hex << pat(key_of<KT>(v)) << std::dec << '.' << pay_of<KT>(v);
             if (key_of<KT>(v) != *ref.begin()) f = "top-not-min";
             have_last = true; last = *ref.begin();
@@ -127,6 +147,7 @@ static void run_radix_on(H h, const std::vector<Op>& ops, std::ostringstream& ou
                 if (j) out << ',';
                 out << std::hex << pat(key_of<KT>(b[j])) << std::dec << '.' << pay_of<KT>(b[j]);
                 if (key_of<KT>(b[j]) != m) f = "swap-bucket-not-min";
+                if (!intact<KT>(b[j])) f = "moved-from-value";
             }
             if (b.size() != cnt) f = "swap-bucket-count";
             ref.erase(m);
